@@ -33,9 +33,10 @@ The only hypotheses are `ParserWF e`, the day range 1900–9999 (outside: `C01_m
 No offset-scope hypothesis is left: the specification shifts days with the same saturating shift as the
 (repaired) code, see `OH.Spec.shift`, `OH.Spec.weekdayOk` and the history note below.
 NOT proved (rests on oracle + correspondence): day offsets beyond ±30 000 000 days on dated ranges (beyond
-±300 000 days when a bound is Easter); up to about ±95 000 000 days nothing is known to fail; beyond, where
-`d - offset` is not representable and the code's shifts saturate, the filter is known to disagree with the
-saturating specification on some shapes — no panic, and the hint stays sound: brute force on the model.  Why the
+±300 000 days when a bound is Easter); nothing is known to fail there — since /repo 5cdd92e also beyond about
+±92 000 000 days, where `d - offset` or a year of the window around it is not representable and a bound simply has
+no occurrence: lean/scratch/BFDated.lean (offsets up to ±2·10⁸: 0 mismatch with the specification, 0 unsound hint)
+and the oracle on generated offsets up to ±10⁹ days.  Why the
 proof stops at 30 000 000: the specification looks for instances `3 + (|so| + |eo|) / 365` years on either side
 of the day, and beyond `3 × 30 000 000` days the shifted instances of those years are pinned at
 `NaiveDate::MIN/MAX` (the proofs rest on their strict order); Easter: `easter()` of a negative year is not a
